@@ -505,6 +505,21 @@ func c06EveryThreshold(run *mon.Run) {
 // accepted - in particular the corners (2,1), (254,1), (254,253) - and an accepted key generation
 // returns `size` shares.
 func c06ParameterGrid(run *mon.Run) {
+	// the stateless EnoughShares(threshold, shares): an invalid-inputs error (and false) below the minimum
+	// threshold, otherwise exactly shares > threshold
+	for _, t := range []int{-1 << 31, -2, -1, 0, 1, 2, 3, 127, 128, 253, 254, 255, 256, 1 << 20} {
+		for _, k := range []int{-1, 0, 1, 2, t - 1, t, t + 1, t + 2, 254, 255} {
+			ok, err := crypto.EnoughShares(t, k)
+			run.Eval(1)
+			switch {
+			case t < 1 && (ok || !crypto.IsInvalidInputsError(err)):
+				run.Violate("C06:enough-shares:stateless:illegal-threshold", fmt.Sprintf("EnoughShares(threshold=%d, shares=%d) = (%v, %v): an invalid-inputs error with false is documented", t, k, ok, err), nil)
+			case t >= 1 && (err != nil || ok != (k > t)):
+				run.Violate("C06:enough-shares:stateless", fmt.Sprintf("EnoughShares(threshold=%d, shares=%d) = (%v, %v), expected (%v, nil)", t, k, ok, err, k > t), nil)
+			}
+		}
+	}
+	run.Shape("enough-shares|stateless")
 	sizes := []int{-1, 0, 1, 2, 3, 4, 127, 128, 253, 254, 255, 256, 257, 510, 1 << 16, 1<<31 + 2}
 	pool := make([]crypto.PublicKey, 8)
 	for i := range pool {
@@ -1019,19 +1034,34 @@ func c06Errors(run *mon.Run, r *rand.Rand, g *thrGroup) {
 	ins, _ := g.inspector()
 	_, err = ins.TrustedAdd(signers[0], shares[0])
 	check("first-add", err, func(e error) bool { return e == nil })
-	_, err = ins.TrustedAdd(signers[0], shares[0])
+	// (every boolean returned together with an error is documented to be false)
+	allFalse := func(name string, err error, vals ...bool) {
+		for _, v := range vals {
+			if v && err != nil {
+				run.Violate("C06:true-with-error:"+name, fmt.Sprintf("%s: a boolean result is true although the error %v is returned", name, err), nil)
+			}
+		}
+	}
+	var b1, b2 bool
+	b1, err = ins.TrustedAdd(signers[0], shares[0])
 	check("stateful-duplicate-trusted", err, crypto.IsDuplicatedSignerError)
-	_, _, err = ins.VerifyAndAdd(signers[0], shares[0])
+	allFalse("stateful-duplicate-trusted", err, b1)
+	b1, b2, err = ins.VerifyAndAdd(signers[0], shares[0])
 	check("stateful-duplicate-verify", err, crypto.IsDuplicatedSignerError)
+	allFalse("stateful-duplicate-verify", err, b1, b2)
 	for _, bad := range []int{-1, n, 1 << 20} {
-		_, err = ins.TrustedAdd(bad, shares[0])
+		b1, err = ins.TrustedAdd(bad, shares[0])
 		check("stateful-oor-trusted", err, crypto.IsInvalidInputsError)
-		_, _, err = ins.VerifyAndAdd(bad, shares[0])
+		allFalse("stateful-oor-trusted", err, b1)
+		b1, b2, err = ins.VerifyAndAdd(bad, shares[0])
 		check("stateful-oor-verifyadd", err, crypto.IsInvalidInputsError)
-		_, err = ins.HasShare(bad)
+		allFalse("stateful-oor-verifyadd", err, b1, b2)
+		b1, err = ins.HasShare(bad)
 		check("stateful-oor-hasshare", err, crypto.IsInvalidInputsError)
-		_, err = ins.VerifyShare(bad, shares[0])
+		allFalse("stateful-oor-hasshare", err, b1)
+		b1, err = ins.VerifyShare(bad, shares[0])
 		check("stateful-oor-verifyshare", err, crypto.IsInvalidInputsError)
+		allFalse("stateful-oor-verifyshare", err, b1)
 	}
 	_, err = ins.ThresholdSignature()
 	check("stateful-not-enough", err, crypto.IsNotEnoughSharesError)
@@ -1046,10 +1076,12 @@ func c06Errors(run *mon.Run, r *rand.Rand, g *thrGroup) {
 	}
 	if insF.EnoughShares() {
 		for i, s := range signers {
-			_, err = insF.TrustedAdd(s, shares[i])
+			b1, err = insF.TrustedAdd(s, shares[i])
 			check("stateful-duplicate-after-enough-trusted", err, crypto.IsDuplicatedSignerError)
-			_, _, err = insF.VerifyAndAdd(s, shares[i])
+			allFalse("stateful-duplicate-after-enough-trusted", err, b1)
+			b1, b2, err = insF.VerifyAndAdd(s, shares[i])
 			check("stateful-duplicate-after-enough-verify", err, crypto.IsDuplicatedSignerError)
+			allFalse("stateful-duplicate-after-enough-verify", err, b1, b2)
 		}
 		// a new signer after enough shares is not an error and is not retained
 		for o := 0; o < n; o++ {
